@@ -62,6 +62,8 @@ type Frame struct {
 	defers   []deferRec
 	loops    map[*ssa.BasicBlock]*loopInfo
 	blockR   map[*ssa.BasicBlock]string
+	vpath    string          // inlining path (virtual numbering)
+	curIn    ssa.Instruction // call instruction being executed
 	out      map[*ssa.BasicBlock][]edge // incoming edges per target
 	callOrd  map[ssa.Instruction]string
 	retOrd   map[ssa.Instruction]int
@@ -179,8 +181,8 @@ func (f *Frame) resolveName(name string) (Val, bool) {
 	if v, ok := f.lets[name]; ok {
 		return v, true
 	}
-	if f.fc != nil {
-		if pt, ok := f.fc.Binds[name]; ok {
+	if f.cfc() != nil {
+		if pt, ok := f.cfc().Binds[name]; ok {
 			// the call has not happened on this path: an arbitrary value
 			for in, p := range f.callOrd {
 				if p == pt {
@@ -271,6 +273,11 @@ func (f *Frame) resolveName(name string) (Val, bool) {
 			}
 			return f.bindings[i], true
 		}
+	}
+	if f.e.virtual && f.parent != nil && f.fc == nil {
+		// a clause of the function under verification evaluated inside an
+		// inlined helper: names of the caller
+		return f.parent.resolveName(name)
 	}
 	return Val{}, false
 }
@@ -670,6 +677,9 @@ func (f *Frame) run(reach string, st *State) {
 	f.blockR = map[*ssa.BasicBlock]string{}
 	f.out = map[*ssa.BasicBlock][]edge{}
 	f.numberPoints()
+	if e.virtual {
+		f.applyVirtualNumbering()
+	}
 	for _, b := range f.rpo() {
 		var bst *State
 		var breach string
@@ -932,8 +942,8 @@ func (f *Frame) enterLoop(li *loopInfo, reach string, st *State, np int) string 
 	autoInv := f.rangeIndexInvariant(li)
 	// 1. invariants on entry
 	var invs []*Clause
-	if f.fc != nil {
-		invs = f.fc.LoopInv[li.ord]
+	if f.cfc() != nil {
+		invs = f.cfc().LoopInv[li.ord]
 	}
 	f.curBlock, f.curIdx, f.curSt = b, np, st
 	for _, c := range invs {
@@ -953,8 +963,8 @@ func (f *Frame) enterLoop(li *loopInfo, reach string, st *State, np int) string 
 	// 2. havoc
 	hst := st // mutate in place: st is this block's own state
 	li.items, li.hasMod = nil, false
-	if f.fc != nil {
-		if mods, ok := f.fc.LoopMod[li.ord]; ok {
+	if f.cfc() != nil {
+		if mods, ok := f.cfc().LoopMod[li.ord]; ok {
 			li.hasMod = true
 			li.items = f.evalModItems(f.env(st), mods)
 		}
@@ -992,8 +1002,8 @@ func (f *Frame) enterLoop(li *loopInfo, reach string, st *State, np int) string 
 	}
 	li.headSt = hst.clone()
 	f.curSt = hst
-	if f.fc != nil {
-		for _, l := range f.fc.LoopLets[li.ord] {
+	if f.cfc() != nil {
+		for _, l := range f.cfc().LoopLets[li.ord] {
 			func() {
 				defer func() {
 					if r := recover(); r != nil {
@@ -1023,8 +1033,8 @@ func (f *Frame) enterLoop(li *loopInfo, reach string, st *State, np int) string 
 	for _, ai := range autoInv {
 		e.assume(reach, ai(f))
 	}
-	if f.fc != nil {
-		if d := f.fc.LoopDec[li.ord]; d != nil {
+	if f.cfc() != nil {
+		if d := f.cfc().LoopDec[li.ord]; d != nil {
 			v := f.evalTerm(f.env(hst), d.Expr)
 			li.measure = v
 		}
@@ -1122,8 +1132,8 @@ func (f *Frame) backEdge(li *loopInfo, from *ssa.BasicBlock, reach string, st *S
 	f.curBlock, f.curIdx, f.curSt = b, np, st
 	defer func() { f.phiOver = nil; f.curBlock, f.curIdx, f.curSt = saveB, saveI, saveS }()
 	var invs []*Clause
-	if f.fc != nil {
-		invs = f.fc.LoopInv[li.ord]
+	if f.cfc() != nil {
+		invs = f.cfc().LoopInv[li.ord]
 	}
 	for _, c := range invs {
 		if !f.modeOK(c) {
@@ -1142,8 +1152,8 @@ func (f *Frame) backEdge(li *loopInfo, from *ssa.BasicBlock, reach string, st *S
 	for phi := range li.stable {
 		f.addObl(tag+"#region-stable", "", reach, eq(over[phi].C[0], li.phis[phi].C[0]), nil, nil, "")
 	}
-	if li.measure != "" && f.fc != nil {
-		d := f.fc.LoopDec[li.ord]
+	if li.measure != "" && f.cfc() != nil {
+		d := f.cfc().LoopDec[li.ord]
 		nv := f.evalTerm(f.env(st), d.Expr)
 		if d.Kind == "increases" {
 			goal := e.ilt(li.measure, nv)
@@ -1170,8 +1180,8 @@ func (f *Frame) backEdge(li *loopInfo, from *ssa.BasicBlock, reach string, st *S
 	if li.hasMod {
 		f.frameObligations(tag+"#frame", reach, li.headSt, st, li.items, li.preSt.Alloc)
 	}
-	if f.fc != nil {
-		if cl := f.fc.MapAll[li.ord]; cl != nil {
+	if f.cfc() != nil {
+		if cl := f.cfc().MapAll[li.ord]; cl != nil {
 			// the key of the iteration that is ending satisfies P
 			f.phiOver = nil
 			f.curBlock, f.curIdx, f.curSt = from, len(from.Instrs), st
@@ -1541,7 +1551,7 @@ func (f *Frame) regionDerived(li *loopInfo, phi *ssa.Phi) bool {
 // map iterator's ok flag.
 func (f *Frame) mapRangeFacts(x *ssa.If, b *ssa.BasicBlock, reach string, st *State, c string) {
 	ex, ok := x.Cond.(*ssa.Extract)
-	if !ok || ex.Index != 0 || f.fc == nil {
+	if !ok || ex.Index != 0 || f.cfc() == nil {
 		return
 	}
 	nx, ok := ex.Tuple.(*ssa.Next)
@@ -1575,7 +1585,7 @@ func (f *Frame) mapRangeFacts(x *ssa.If, b *ssa.BasicBlock, reach string, st *St
 	}
 	// mapall: when the loop ends normally every key satisfied P (each
 	// iteration that reaches the back edge proves P for its key)
-	if cl := f.fc.MapAll[li.ord]; cl != nil {
+	if cl := f.cfc().MapAll[li.ord]; cl != nil {
 		if rng, isR := nx.Iter.(*ssa.Range); isR {
 			m := f.val(rng.X)
 			e.assume(and(reach, not(c)), f.mapAllFact(cl.Label, m, st))
@@ -1615,4 +1625,142 @@ func (f *Frame) loopNext(li *loopInfo) *ssa.Next {
 		}
 	}
 	return nil
+}
+
+// ---------------------------------------------------------------------------
+// Inlined-helper numbering (fallback).  Program points and loops are named by
+// ordinal within a function.  When code that carries such clauses is moved into
+// a helper without a contract (which the engine inlines), the ordinals no
+// longer exist in the caller.  In this mode the points of the whole inlining
+// tree are numbered in source order, a helper's points taking the place of its
+// call, and the clauses of the function under verification apply inside the
+// inlined helpers.  Used only after the normal numbering failed to verify.
+
+type vItem struct {
+	path string
+	in   ssa.Instruction
+	hdr  *ssa.BasicBlock
+	name string
+}
+
+func (e *Eng) inlinable(c *ssa.CallCommon) *ssa.Function {
+	callee := c.StaticCallee()
+	if callee == nil || callee.Pkg != e.pkg || len(callee.Blocks) == 0 {
+		return nil
+	}
+	if fc := e.db.Funcs[fnKey(callee)]; fc != nil && !fc.Inline {
+		return nil
+	}
+	return callee
+}
+
+func (f *Frame) linearise(fn *ssa.Function, path string, depth int, out *[]vItem) {
+	type it struct {
+		pos token.Pos
+		idx int
+		v   vItem
+		cc  *ssa.CallCommon
+	}
+	tmp := &Frame{e: f.e, fn: fn}
+	tmp.computeLoops()
+	var items []it
+	k := 0
+	hpos := func(h *ssa.BasicBlock) token.Pos {
+		p := token.Pos(1 << 30)
+		li := tmp.loops[h]
+		for b := range li.blocks {
+			for _, in := range b.Instrs {
+				if _, ok := in.(*ssa.Phi); ok {
+					continue
+				}
+				if q := in.Pos(); q.IsValid() && q < p {
+					p = q
+				}
+			}
+		}
+		return p
+	}
+	for h := range tmp.loops {
+		items = append(items, it{pos: hpos(h), idx: h.Index, v: vItem{path: path, hdr: h}})
+	}
+	for _, b := range fn.Blocks {
+		for _, in := range b.Instrs {
+			k++
+			switch x := in.(type) {
+			case *ssa.Call:
+				items = append(items, it{pos: in.Pos(), idx: 100000 + k, v: vItem{path: path, in: in, name: shortName(tmp.calleeKey(&x.Call))}, cc: &x.Call})
+			case *ssa.Defer:
+				items = append(items, it{pos: in.Pos(), idx: 100000 + k, v: vItem{path: path, in: in, name: shortName(tmp.calleeKey(&x.Call))}})
+			case *ssa.Send:
+				items = append(items, it{pos: in.Pos(), idx: 100000 + k, v: vItem{path: path, in: in, name: "send"}})
+			case *ssa.UnOp:
+				if x.Op == token.ARROW {
+					items = append(items, it{pos: in.Pos(), idx: 100000 + k, v: vItem{path: path, in: in, name: "recv"}})
+				}
+			case *ssa.Select:
+				items = append(items, it{pos: in.Pos(), idx: 100000 + k, v: vItem{path: path, in: in, name: "select"}})
+			}
+		}
+	}
+	sort.SliceStable(items, func(i, j int) bool {
+		if items[i].pos != items[j].pos {
+			return items[i].pos < items[j].pos
+		}
+		return items[i].idx < items[j].idx
+	})
+	for _, x := range items {
+		*out = append(*out, x.v)
+		if x.cc != nil && depth < 3 {
+			if callee := f.e.inlinable(x.cc); callee != nil && callee != fn {
+				f.linearise(callee, path+fmt.Sprintf("/%p", x.v.in), depth+1, out)
+			}
+		}
+	}
+}
+
+// applyVirtualNumbering renames this frame's points and loops.
+func (f *Frame) applyVirtualNumbering() {
+	e := f.e
+	if e.vcall == nil {
+		top := f
+		for top.parent != nil {
+			top = top.parent
+		}
+		var lin []vItem
+		f.linearise(top.fn, "", 0, &lin)
+		e.vcall, e.vloop = map[string]string{}, map[string]int{}
+		cnt := map[string]int{}
+		nl := 0
+		for _, it := range lin {
+			if it.hdr != nil {
+				nl++
+				e.vloop[fmt.Sprintf("%s|%p", it.path, it.hdr)] = nl
+				continue
+			}
+			cnt[it.name]++
+			e.vcall[fmt.Sprintf("%s|%p", it.path, it.in)] = fmt.Sprintf("call:%s#%d", it.name, cnt[it.name])
+		}
+	}
+	for in := range f.callOrd {
+		if n, ok := e.vcall[fmt.Sprintf("%s|%p", f.vpath, in)]; ok {
+			f.callOrd[in] = n
+		}
+	}
+	for h, li := range f.loops {
+		if n, ok := e.vloop[fmt.Sprintf("%s|%p", f.vpath, h)]; ok {
+			li.ord = n
+		}
+	}
+}
+
+// cfc: the contract whose point and loop clauses apply in this frame.
+func (f *Frame) cfc() *FuncContract {
+	if f.fc != nil || !f.e.virtual {
+		return f.fc
+	}
+	top := f
+	for top.parent != nil {
+		top = top.parent
+	}
+	return top.fc
 }
